@@ -451,3 +451,80 @@ def run_recipe(recipe, reps=1, user_options=None, continuation=None, want_contin
             raise
         return {"err": C.canon_exc(e), "msg": str(e)[:300], "rows": cap.rows}
     return {"ok": cap.rows, "cont": out_cont.getvalue() if out_cont else None}
+
+
+# ----------------------------------------------------------------------------- shared pieces of the interpreter-level checks
+def proj_case_coq(proj, recipe, reps, obs):
+    """CProj term: the model and the expected rows are both projected by the model."""
+    if "ok" in obs:
+        if not comparable(obs["ok"]):
+            return None
+        exp = f"(Ok {rows_coq(obs['ok'])})"
+    else:
+        exp = f"(Err {C.cerr(obs['err'])})"
+    return f"CProj {proj} {recipe_coq(recipe)} {C.cnat(reps)} {exp}"
+
+
+def ids_by_table(rows):
+    out = {}
+    for t, fs in rows:
+        d = dict((k, v) for k, v in fs)
+        if "id" in d and d["id"][0] == "int":
+            out.setdefault(t, []).append(d["id"][1])
+    return out
+
+
+def feature_stats(cases, obss):
+    from collections import Counter
+    feats = Counter(f for c in cases for f in c.get("features", []))
+    outcomes = Counter(("ok" if "ok" in o else o.get("err", "?")) for o in obss if isinstance(o, dict))
+    rows = Counter(min(len(o.get("ok", [])), 20) // 5 * 5 for o in obss if isinstance(o, dict) and "ok" in o)
+    return {"features": dict(feats), "outcomes": dict(outcomes),
+            "rows_per_recipe_bucket": {str(k): v for k, v in sorted(rows.items())},
+            "versions": dict(Counter(c["recipe"]["version"] for c in cases)),
+            "reps": dict(Counter(c.get("reps", 1) for c in cases))}
+
+
+def shrink_recipe_case(case):
+    r = case["recipe"]
+    stmts = r["stmts"]
+    for i in range(len(stmts)):
+        if len(stmts) > 1:
+            yield dict(case, recipe=dict(r, stmts=stmts[:i] + stmts[i + 1:]))
+    if case.get("reps", 1) > 1:
+        yield dict(case, reps=case["reps"] - 1)
+    for i, s in enumerate(stmts):
+        if s[0] == "obj":
+            t = s[1]
+            for j in range(len(t["fields"])):
+                t2 = dict(t, fields=t["fields"][:j] + t["fields"][j + 1:])
+                yield dict(case, recipe=dict(r, stmts=stmts[:i] + [["obj", t2]] + stmts[i + 1:]))
+            for j in range(len(t["friends"])):
+                t2 = dict(t, friends=t["friends"][:j] + t["friends"][j + 1:])
+                yield dict(case, recipe=dict(r, stmts=stmts[:i] + [["obj", t2]] + stmts[i + 1:]))
+            if t.get("count") is not None:
+                yield dict(case, recipe=dict(r, stmts=stmts[:i] + [["obj", dict(t, count=None)]] + stmts[i + 1:]))
+
+
+def walk_templates(recipe):
+    def rec_t(t):
+        yield t
+        for _, d in t["fields"]:
+            yield from rec_d(d)
+        if t.get("count"):
+            yield from rec_d(t["count"])
+        for s in t["friends"]:
+            yield from rec_s(s)
+
+    def rec_d(d):
+        if d[0] == "nested":
+            yield from rec_t(d[1])
+
+    def rec_s(s):
+        if s[0] == "obj":
+            yield from rec_t(s[1])
+        else:
+            yield from rec_d(s[2])
+
+    for s in recipe["stmts"]:
+        yield from rec_s(s)
